@@ -253,3 +253,947 @@ Proof. intros key. simpl. destruct key as [|[|k]|[|k]|b]; reflexivity. Qed.
 
 Lemma reachable_tok_inv w s : reachable w s -> tok_inv s.
 Proof. induction 1; [apply tok_inv_init|apply step_tok_inv; assumption]. Qed.
+
+(* ------------------------------------------------------------------ *)
+(* D. the handlers against the monitor                                   *)
+
+Definition right_of (act : action) : Z := match act with APush => PUSH | _ => PULL end.
+
+Ltac unfold_m := unfold M_DESCRIBE, M_ANNOUNCE, M_SETUP_PLAY, M_SETUP_RECORD, M_PLAY, M_RECORD, is_setup,
+                 hands_out_method, PULL, PUSH in *.
+
+Ltac split_m m :=
+  destruct (Z.eq_dec m 1) as [->|?];
+  [|destruct (Z.eq_dec m 2) as [->|?];
+    [|destruct (Z.eq_dec m 3) as [->|?];
+      [|destruct (Z.eq_dec m 4) as [->|?];
+        [|destruct (Z.eq_dec m 5) as [->|?];
+          [|destruct (Z.eq_dec m 6) as [->|?];
+            [|assert (m =? 1 = false) by (apply Z.eqb_neq; assumption);
+              assert (m =? 2 = false) by (apply Z.eqb_neq; assumption);
+              assert (m =? 3 = false) by (apply Z.eqb_neq; assumption);
+              assert (m =? 4 = false) by (apply Z.eqb_neq; assumption);
+              assert (m =? 5 = false) by (apply Z.eqb_neq; assumption);
+              assert (m =? 6 = false) by (apply Z.eqb_neq; assumption)]]]]]].
+
+Ltac break_hyp H :=
+  repeat match type of H with
+         | context [if ?b then _ else _] => let E := fresh "E" in destruct b eqn:E
+         | context [match ?x with _ => _ end] => let E := fresh "E" in destruct x eqn:E
+         end.
+
+Lemma rtsp_handle_safe ws pm r self c m path c2 code pub :
+  rtsp_handle ws pm r self c m path = (c2, code, pub) ->
+  hands_out_method m = true -> code = 200 ->
+  pm (right_of (fst (rtsp_target ws c m path))) (snd (rtsp_target ws c m path)) = true \/
+  ((m =? M_PLAY) && (c_status c =? 2) || (m =? M_RECORD) && (c_status c =? 3)) = true.
+Proof.
+  intros H Hh Hc. unfold rtsp_handle, rtsp_target in *. unfold_m.
+  split_m m; cbn in *; try discriminate;
+    try (repeat match goal with H : _ =? _ = false |- _ => rewrite H in * end; cbn in *);
+    break_hyp H; inversion H; subst; try discriminate; auto;
+    unfold_m; repeat match goal with H : (_ =? _) = false |- _ => rewrite H in * end; cbn in *; try discriminate; auto.
+Qed.
+
+Lemma rtsp_handle_live ws pm r self c m path c2 code pub :
+  rtsp_handle ws pm r self c m path = (c2, code, pub) ->
+  pm (right_of (fst (rtsp_target ws c m path))) (snd (rtsp_target ws c m path)) = true ->
+  (let '(_, code', _) := rtsp_handle ws (fun _ _ => true) r 0 c m path in code' =? 200) = true ->
+  code = 200.
+Proof.
+  intros H Hp Hf. unfold rtsp_handle, rtsp_target in *. unfold_m.
+  split_m m; cbn in *; try discriminate;
+    break_hyp H; inversion H; subst; try discriminate; auto;
+    unfold_m; repeat match goal with H : (_ =? _) = false |- _ => rewrite H in * end; cbn in *; unfold_m;
+    try discriminate; try congruence; auto;
+    repeat match goal with H : context [if ?b then _ else _] |- _ => destruct b end; cbn in *; unfold_m; congruence.
+Qed.
+
+Lemma rtsp_handle_play ws pm r self c m path c2 code pub :
+  rtsp_handle ws pm r self c m path = (c2, code, pub) ->
+  (m =? M_PLAY) = true -> (c_status c2 =? 2) = true -> code = 200.
+Proof.
+  intros H Hm Hs. apply Z.eqb_eq in Hm. subst m. unfold rtsp_handle in H. unfold_m. cbn in H.
+  break_hyp H; inversion H; subst; cbn in *; try congruence.
+Qed.
+
+Lemma rtsp_handle_pub ws pm r self c m path c2 code p' :
+  rtsp_handle ws pm r self c m path = (c2, code, Some p') ->
+  (m =? M_RECORD) = true /\ code = 200 /\
+  pm (right_of (fst (rtsp_target ws c m path))) (snd (rtsp_target ws c m path)) = true.
+Proof.
+  intros H. unfold rtsp_handle, rtsp_target in *. unfold_m.
+  split_m m; cbn in *; try discriminate;
+    break_hyp H; inversion H; subst; try discriminate; auto;
+    unfold_m; repeat match goal with H : (_ =? _) = false |- _ => rewrite H in * end; cbn in *; unfold_m;
+    try discriminate; try congruence; auto.
+Qed.
+
+Lemma digest_check_identity t c cr :
+  fst (digest_check true t c cr) = digest_identity t c cr.
+Proof.
+  unfold digest_check, digest_identity, nonce_ok. destruct cr as [|u sec nm bm]; [reflexivity|].
+  destruct u as [|x u]; [reflexivity|]. destruct (find_user t (x :: u)); [|reflexivity].
+  destruct (_ && _ && _); reflexivity.
+Qed.
+
+Lemma zlist_eqb_refl l : zlist_eqb l l = true.
+Proof. induction l; simpl; [reflexivity|]. rewrite Z.eqb_refl. exact IHl. Qed.
+
+Lemma spec_allows_right t u act p :
+  match act with APull | APush => true | _ => false end = true ->
+  perm_go t u (right_of act) p = spec_allows t u act p.
+Proof. destruct act; try discriminate; intros _; [apply perm_go_pull|apply perm_go_push]. Qed.
+
+Lemma rtsp_target_act ws c m path :
+  match fst (rtsp_target ws c m path) with APull | APush => true | _ => false end = true.
+Proof.
+  unfold rtsp_target.
+  repeat match goal with |- context [if ?b then (_, _) else _] => destruct b; cbn [fst]; try reflexivity end;
+  try (destruct (_ =? _); reflexivity).
+Qed.
+
+Lemma allowed_rtsp s k m path cr :
+  allowed s (ERtsp k m path cr) =
+  match fst (digest_check true (users s) (get_conn s k) cr) with
+  | Some u => spec_allows (users s) u (fst (rtsp_target false (get_conn s k) m path))
+                          (snd (rtsp_target false (get_conn s k) m path))
+  | None => false
+  end.
+Proof.
+  unfold allowed. cbn [identity target]. rewrite digest_check_identity.
+  destruct (digest_identity _ _ _); [|reflexivity]. destruct (rtsp_target _ _ _ _); reflexivity.
+Qed.
+
+Lemma judge_rtsp w s k m path cr :
+  let o := snd (step_rtsp true w s k m path cr) in
+  judge w s (ERtsp k m path cr) o = true /\ judge_reg w s (ERtsp k m path cr) o = true.
+Proof.
+  unfold judge, judge_reg, step_rtsp. rewrite allowed_rtsp.
+  cbn [is_request identity granted accepted keepalive feasible unauth_code judge_join].
+  set (c := get_conn s k).
+  destruct (c_kind c =? K_RTSP) eqn:Ek; cbn [negb].
+  2:{ cbn. rewrite zlist_eqb_refl. rewrite !andb_false_r. cbn. destruct (digest_identity _ _ _); auto. }
+  destruct (legal (c_status c) m) eqn:El; cbn [negb].
+  2:{ cbn. rewrite zlist_eqb_refl. rewrite !andb_false_r. cbn. destruct (digest_identity _ _ _); auto. }
+  rewrite <- digest_check_identity.
+  destruct (digest_check true (users s) c cr) as [[uname|] rot] eqn:Ed; cbn [fst].
+  - destruct (rtsp_handle false (perm_go (users s) uname) (reg s) (2 + Z.of_nat k) c m path) as [[c2 code] pub] eqn:Eh.
+    pose proof (rtsp_handle_safe _ _ _ _ _ _ _ _ _ _ Eh) as Hsafe.
+    pose proof (rtsp_handle_live _ _ _ _ _ _ _ _ _ _ Eh) as Hlive.
+    pose proof (rtsp_handle_play _ _ _ _ _ _ _ _ _ _ Eh) as Hplay.
+    pose proof (rtsp_target_act false c m path) as Hact.
+    destruct (rtsp_target false c m path) as [act p] eqn:Et. cbn [fst snd] in *.
+    rewrite (spec_allows_right _ _ _ _ Hact) in Hsafe, Hlive.
+    cbn [snd with_reg o_code o_media o_reg ob].
+    split.
+    + rewrite andb_true_r. rewrite !andb_true_iff. repeat split.
+      * apply implb_true_iff. intros Hg. apply andb_true_iff in Hg as [Hh Hg].
+        assert (Hc : code = 200).
+        { apply orb_true_iff in Hg as [Hg|Hg]; [apply Z.eqb_eq; exact Hg|].
+          apply andb_true_iff in Hg as [Hg _]. apply andb_true_iff in Hg as [Hg1 Hg2]. auto. }
+        destruct (Hsafe Hh Hc) as [Hs|Hs]; rewrite Hs; auto using orb_true_r.
+      * apply implb_true_iff. intros Ha. apply andb_true_iff in Ha as [Ha Hf].
+        cbn [andb] in Hf. rewrite (Hlive Ha Hf). reflexivity.
+    + destruct pub as [p'|].
+      * destruct (rtsp_handle_pub _ _ _ _ _ _ _ _ _ _ Eh) as (Hm & Hc & Hp).
+        rewrite Et in Hp. cbn [fst snd] in Hp. rewrite (spec_allows_right _ _ _ _ Hact) in Hp.
+        rewrite Hm, Hc, Hp. cbn. destruct (zlist_eqb _ _); reflexivity.
+      * unfold reg_view. rewrite zlist_eqb_refl. reflexivity.
+  - cbn [snd with_reg o_code o_media o_reg ob]. split.
+    + cbn. rewrite !andb_true_r. apply implb_true_iff. intros Hg.
+      apply andb_true_iff in Hg as [_ Hg]. apply andb_true_iff in Hg as [Hg _]. rewrite Hg. reflexivity.
+    + unfold reg_view. rewrite zlist_eqb_refl. reflexivity.
+Qed.
+
+(* ws-rtsp: the same handlers, the user the upgrade verified *)
+Lemma allowed_wsrtsp s k m path :
+  allowed s (EWsRtsp k m path) =
+  spec_allows (users s) (c_user (get_conn s k)) (fst (rtsp_target true (get_conn s k) m path))
+              (snd (rtsp_target true (get_conn s k) m path)).
+Proof. unfold allowed. cbn [identity target]. destruct (rtsp_target _ _ _ _); reflexivity. Qed.
+
+Lemma judge_wsrtsp w s k m path :
+  let o := snd (step_wsrtsp true w s k m path) in
+  judge w s (EWsRtsp k m path) o = true /\ judge_reg w s (EWsRtsp k m path) o = true.
+Proof.
+  unfold judge, judge_reg, step_wsrtsp. rewrite allowed_wsrtsp.
+  cbn [is_request identity granted accepted keepalive feasible unauth_code judge_join].
+  set (c := get_conn s k).
+  destruct (c_kind c =? K_WSRTSP) eqn:Ek; cbn [negb].
+  2:{ cbn. rewrite zlist_eqb_refl. rewrite !andb_false_r. cbn. auto. }
+  destruct (legal (c_status c) m) eqn:El; cbn [negb].
+  2:{ cbn. rewrite zlist_eqb_refl. rewrite !andb_false_r. cbn. auto. }
+  destruct (rtsp_handle true (perm_go (users s) (c_user c)) (reg s) (2 + Z.of_nat k) c m path) as [[c2 code] pub] eqn:Eh.
+  pose proof (rtsp_handle_safe _ _ _ _ _ _ _ _ _ _ Eh) as Hsafe.
+  pose proof (rtsp_handle_live _ _ _ _ _ _ _ _ _ _ Eh) as Hlive.
+  pose proof (rtsp_handle_play _ _ _ _ _ _ _ _ _ _ Eh) as Hplay.
+  pose proof (rtsp_target_act true c m path) as Hact.
+  destruct (rtsp_target true c m path) as [act p] eqn:Et. cbn [fst snd] in *.
+  rewrite (spec_allows_right _ _ _ _ Hact) in Hsafe, Hlive.
+  cbn [snd with_reg o_code o_media o_reg ob].
+  split.
+  + rewrite !andb_true_r. rewrite !andb_true_iff. repeat split.
+    * apply implb_true_iff. intros Hg. apply andb_true_iff in Hg as [Hh Hg].
+      assert (Hc : code = 200).
+      { apply orb_true_iff in Hg as [Hg|Hg]; [apply Z.eqb_eq; exact Hg|].
+        apply andb_true_iff in Hg as [Hg _]. apply andb_true_iff in Hg as [Hg1 Hg2]. auto. }
+      destruct (Hsafe Hh Hc) as [Hs|Hs]; rewrite Hs; auto using orb_true_r.
+    * apply implb_true_iff. intros Ha. apply andb_true_iff in Ha as [Ha Hf].
+      cbn [andb] in Hf. rewrite (Hlive Ha Hf). reflexivity.
+  + destruct pub as [p'|].
+    * destruct (rtsp_handle_pub _ _ _ _ _ _ _ _ _ _ Eh) as (Hm & Hc & Hp).
+      rewrite Et in Hp. cbn [fst snd] in Hp. rewrite (spec_allows_right _ _ _ _ Hact) in Hp.
+      rewrite Hm, Hc, Hp. cbn. destruct (zlist_eqb _ _); reflexivity.
+    * unfold reg_view. rewrite zlist_eqb_refl. reflexivity.
+Qed.
+
+(* WSP control channel *)
+Definition wsp_target_path (c : conn) (m : Z) : bytes := if m =? M_DESCRIBE then c_wspath c else c_path c.
+
+Lemma wsp_handle_safe pm r c m c2 code :
+  wsp_handle true pm r c m = (c2, code) ->
+  hands_out_method m = true -> code = 200 ->
+  pm PULL (wsp_target_path c m) = true \/ ((m =? M_PLAY) && (c_status c =? 2)) = true.
+Proof.
+  intros H Hh Hc. unfold wsp_handle, wsp_target_path in *. unfold_m.
+  split_m m; cbn in *; try discriminate;
+    break_hyp H; inversion H; subst; try discriminate; auto;
+    unfold_m; repeat match goal with H : (_ =? _) = false |- _ => rewrite H in * end; cbn in *; unfold_m;
+    try discriminate; try congruence; auto.
+Qed.
+
+Lemma wsp_handle_live pm r c m c2 code :
+  wsp_handle true pm r c m = (c2, code) ->
+  pm PULL (wsp_target_path c m) = true ->
+  (let '(_, code') := wsp_handle true (fun _ _ => true) r c m in code' =? 200) = true ->
+  code = 200.
+Proof.
+  intros H Hp Hf. unfold wsp_handle, wsp_target_path in *. unfold_m.
+  split_m m; cbn in *; try discriminate;
+    break_hyp H; inversion H; subst; try discriminate; auto;
+    unfold_m; repeat match goal with H : (_ =? _) = false |- _ => rewrite H in * end; cbn in *; unfold_m;
+    try discriminate; try congruence; auto;
+    repeat match goal with H : context [if ?b then _ else _] |- _ => destruct b end; cbn in *; unfold_m; congruence.
+Qed.
+
+Lemma wsp_handle_play pm r c m c2 code :
+  wsp_handle true pm r c m = (c2, code) ->
+  (m =? M_PLAY) = true -> (c_status c2 =? 2) = true -> code = 200.
+Proof.
+  intros H Hm Hs. apply Z.eqb_eq in Hm. subst m. unfold wsp_handle in H. unfold_m. cbn in H.
+  break_hyp H; inversion H; subst; cbn in *; try congruence;
+  rewrite Hs in *; repeat match goal with H : context [if ?b then _ else _] |- _ => destruct b end; cbn in *; congruence.
+Qed.
+
+Lemma wsp_handle_frame fx pm r c m c2 code :
+  wsp_handle fx pm r c m = (c2, code) ->
+  c_kind c2 = c_kind c /\ c_wspath c2 = c_wspath c /\ c_user c2 = c_user c /\
+  (c_path c2 = c_path c \/ c_path c2 = c_wspath c).
+Proof.
+  intros H. unfold wsp_handle in H. break_hyp H; inversion H; subst; cbn; auto.
+Qed.
+
+Lemma judge_wsp w s k m path :
+  judge w s (EWsp k m path) (snd (step_wsp true s k m)) = true.
+Proof.
+  unfold judge, step_wsp, allowed.
+  cbn [is_request identity target granted accepted keepalive feasible unauth_code judge_join].
+  set (c := get_conn s k).
+  destruct (c_kind c =? K_WSP) eqn:Ek; cbn [negb].
+  2:{ cbn. rewrite !andb_false_r. cbn. auto. }
+  destruct (wsp_handle true (perm_go (users s) (c_user c)) (reg s) c m) as [c2 code] eqn:Eh.
+  pose proof (wsp_handle_safe _ _ _ _ _ _ Eh) as Hsafe.
+  pose proof (wsp_handle_live _ _ _ _ _ _ Eh) as Hlive.
+  pose proof (wsp_handle_play _ _ _ _ _ _ Eh) as Hplay.
+  unfold wsp_target_path in *. rewrite perm_go_pull in Hsafe, Hlive.
+  cbn [snd o_code o_media ob].
+  rewrite !andb_true_r. rewrite !andb_true_iff. repeat split.
+  - apply implb_true_iff. intros Hg. apply andb_true_iff in Hg as [Hh Hg].
+    assert (Hc : code = 200).
+    { apply orb_true_iff in Hg as [Hg|Hg]; [apply Z.eqb_eq; exact Hg|].
+      apply andb_true_iff in Hg as [Hg _]. apply andb_true_iff in Hg as [Hg _].
+      apply andb_true_iff in Hg as [Hg1 Hg2]. auto. }
+    destruct (Hsafe Hh Hc) as [Hs|Hs]; rewrite Hs; auto using orb_true_r.
+  - apply implb_true_iff. intros Ha. apply andb_true_iff in Ha as [Ha Hf].
+    cbn [andb] in Hf. rewrite (Hlive Ha Hf). reflexivity.
+Qed.
+
+(* token-guarded entry points *)
+Lemma auth_gate_spec s t : tok_inv s -> auth_gate s t = token_identity s t.
+Proof.
+  intros H. unfold auth_gate, token_identity. rewrite access_check_spec by exact H.
+  destruct t as [| | |[|x b]]; reflexivity.
+Qed.
+
+Lemma stream_gate_spec s t path seg :
+  tok_inv s ->
+  stream_gate true s t path seg =
+  match token_identity s t with
+  | None => (401, [])
+  | Some u => if spec_allows (users s) u APull path then (200, u) else (403, u)
+  end.
+Proof.
+  intros H. unfold stream_gate. rewrite auth_gate_spec by exact H.
+  destruct (token_identity s t) as [u|]; [|reflexivity].
+  rewrite <- perm_go_pull. destruct seg; reflexivity.
+Qed.
+
+Lemma judge_http w s kind path t q :
+  tok_inv s -> judge w s (EHttp kind path t q) (snd (step_http true s kind path t q)) = true.
+Proof.
+  intros H. unfold judge, step_http, allowed.
+  cbn [is_request identity target granted accepted keepalive feasible unauth_code judge_join].
+  rewrite stream_gate_spec by exact H.
+  destruct (token_identity s t) as [u|]; [|reflexivity].
+  destruct (spec_allows (users s) u APull path) eqn:Ea; cbn [negb Z.eqb]; [|reflexivity].
+  cbn. destruct (live (reg s) path) as [o|]; [|reflexivity].
+  destruct (kind =? 1) eqn:E1; destruct (kind =? 2) eqn:E2; destruct (kind =? 0) eqn:E0; destruct (o =? 1);
+    destruct (seg_listed q); try reflexivity;
+    try (apply Z.eqb_eq in E1); try (apply Z.eqb_eq in E2); try (apply Z.eqb_eq in E0); subst; discriminate.
+Qed.
+
+Lemma judge_api w s ep t u b n :
+  tok_inv s -> judge w s (EApi ep t u b n) (snd (step_api s ep t u b n)) = true.
+Proof.
+  intros H. unfold judge, step_api, allowed, api_gate.
+  cbn [is_request identity target granted accepted keepalive feasible unauth_code judge_join snd o_code ob].
+  destruct (ep_open ep) eqn:Eo; [reflexivity|]. cbn [negb].
+  rewrite auth_gate_spec by exact H.
+  destruct (token_identity s t) as [v|]; [|reflexivity].
+  destruct (ep_read ep) eqn:Er; [reflexivity|].
+  unfold spec_allows, rights_now. destruct (find_user (users s) v) as [x|]; [|reflexivity].
+  destruct (u_admin x); reflexivity.
+Qed.
+
+(* ------------------------------------------------------------------ *)
+(* E. a WSP session's path is the path of its upgrade URL               *)
+
+Definition wsp_ok (c : conn) : Prop := c_kind c = K_WSP -> c_path c = c_wspath c.
+Definition conns_ok (s : state) : Prop := Forall wsp_ok (conns s).
+
+Lemma Forall_set_nth {A} (P : A -> Prop) l k x : Forall P l -> P x -> Forall P (set_nth l k x).
+Proof.
+  intros Hl Hx. revert k. induction Hl; intros k; simpl; [constructor|].
+  destruct k; constructor; auto.
+Qed.
+
+Lemma get_conn_ok s k : conns_ok s -> wsp_ok (get_conn s k).
+Proof.
+  intros H. unfold get_conn. destruct (nth_in_or_default k (conns s) dead_conn) as [Hin|Hd].
+  - eapply Forall_forall in H; eauto.
+  - rewrite Hd. intros Hk. discriminate.
+Qed.
+
+Lemma rtsp_handle_kind ws pm r self c m path c2 code pub :
+  rtsp_handle ws pm r self c m path = (c2, code, pub) -> c_kind c2 = c_kind c.
+Proof. intros H. unfold rtsp_handle in H. break_hyp H; inversion H; subst; reflexivity. Qed.
+
+Lemma not_wsp_ok c : c_kind c <> K_WSP -> wsp_ok c.
+Proof. intros H Hk. contradiction. Qed.
+
+Lemma step_conns_ok fx w s ev : conns_ok s -> conns_ok (fst (step_gen fx w s ev)).
+Proof.
+  intros H. destruct ev; cbn [step_gen]; try exact H.
+  - unfold step_login. break_step; simpl; exact H.
+  - unfold step_refresh. destruct (is_none t); [exact H|].
+    assert (Hc : conns (fst (refresh s t)) = conns s) by (unfold refresh; break_step; reflexivity).
+    destruct (refresh s t) as [s1 ok]. simpl in *. unfold conns_ok. rewrite Hc. exact H.
+  - unfold conns_ok. simpl. apply Forall_app. split; [exact H|]. constructor; [|constructor].
+    intros Hk. discriminate.
+  - unfold step_rtsp. set (c := get_conn s k).
+    destruct (c_kind c =? K_RTSP) eqn:Ek; cbn [negb]; [|exact H].
+    apply Z.eqb_eq in Ek.
+    destruct (legal (c_status c) m); cbn [negb].
+    + destruct (digest_check fx (users s) c cr) as [[uname|] rot].
+      * destruct (rtsp_handle false _ _ _ c m path) as [[c2 code] pub] eqn:Eh.
+        apply rtsp_handle_kind in Eh. unfold conns_ok. simpl. apply Forall_set_nth; [exact H|].
+        apply not_wsp_ok. simpl. rewrite Eh, Ek. discriminate.
+      * unfold conns_ok. simpl. apply Forall_set_nth; [exact H|].
+        apply not_wsp_ok. destruct rot; simpl; rewrite Ek; discriminate.
+    + unfold conns_ok. simpl. apply Forall_set_nth; [exact H|].
+      apply not_wsp_ok. simpl. rewrite Ek. discriminate.
+  - unfold step_wsopen. destruct (stream_gate fx s t path None) as [code uname].
+    destruct (negb (code =? 200)).
+    + destruct ((kind =? 0) || (kind =? 1)); [|exact H].
+      unfold conns_ok. simpl. apply Forall_app. split; [exact H|]. constructor; [|constructor].
+      intros Hk. discriminate.
+    + destruct (kind =? 0).
+      { unfold conns_ok. simpl. apply Forall_app. split; [exact H|]. constructor; [|constructor].
+        intros Hk. discriminate. }
+      destruct (kind =? 1).
+      { unfold conns_ok. simpl. apply Forall_app. split; [exact H|]. constructor; [|constructor].
+        intros Hk. reflexivity. }
+      destruct (kind =? 2); [|exact H].
+      destruct (_ && _); [|exact H].
+      unfold conns_ok. simpl. apply Forall_set_nth; [exact H|].
+      pose proof (get_conn_ok s chan H) as Hc. intros Hk. simpl in *. auto.
+  - unfold step_wsrtsp. set (c := get_conn s k).
+    destruct (c_kind c =? K_WSRTSP) eqn:Ek; cbn [negb]; [|exact H].
+    apply Z.eqb_eq in Ek.
+    destruct (legal (c_status c) m); cbn [negb]; [|exact H].
+    destruct (rtsp_handle true _ _ _ c m path) as [[c2 code] pub] eqn:Eh.
+    apply rtsp_handle_kind in Eh. unfold conns_ok. simpl. apply Forall_set_nth; [exact H|].
+    apply not_wsp_ok. rewrite Eh, Ek. discriminate.
+  - unfold step_wsp. set (c := get_conn s k).
+    destruct (c_kind c =? K_WSP) eqn:Ek; cbn [negb]; [|exact H].
+    apply Z.eqb_eq in Ek.
+    destruct (wsp_handle fx _ _ c m) as [c2 code] eqn:Eh.
+    apply wsp_handle_frame in Eh. destruct Eh as (E1 & E2 & E3 & E4).
+    unfold conns_ok. simpl. apply Forall_set_nth; [exact H|].
+    pose proof (get_conn_ok s k H Ek) as Hc. fold c in Hc.
+    intros _. rewrite E2. destruct E4 as [E4|E4]; congruence.
+  - rewrite step_http_auth. exact H.
+  - unfold step_api. break_step; simpl; exact H.
+Qed.
+
+Lemma conns_ok_init u e : conns_ok (state0 u e).
+Proof. constructor. Qed.
+
+Lemma reachable_conns_ok w s : reachable w s -> conns_ok s.
+Proof. induction 1; [apply conns_ok_init|apply step_conns_ok; assumption]. Qed.
+
+(* ------------------------------------------------------------------ *)
+(* F. WebSocket upgrade and the data channel                            *)
+
+Lemma judge_wsopen w s kind path t chan :
+  tok_inv s -> conns_ok s ->
+  judge w s (EWsOpen kind path t chan) (snd (step_wsopen true s kind path t chan)) = true.
+Proof.
+  intros H Hok. unfold judge, step_wsopen, allowed.
+  cbn [is_request identity target granted accepted keepalive feasible unauth_code judge_join].
+  rewrite stream_gate_spec by exact H.
+  destruct (token_identity s t) as [u|].
+  2:{ cbn. destruct (kind =? 2); reflexivity. }
+  destruct (spec_allows (users s) u APull path) eqn:Ea; cbn [negb Z.eqb].
+  2:{ cbn. destruct (kind =? 2); [|reflexivity].
+      destruct (c_kind _ =? _), (bytes_eqb u _), (bytes_eqb path _); reflexivity. }
+  cbn [negb]. destruct (kind =? 0) eqn:E0.
+  { apply Z.eqb_eq in E0. subst kind. reflexivity. }
+  destruct (kind =? 1) eqn:E1.
+  { apply Z.eqb_eq in E1. subst kind. reflexivity. }
+  destruct (kind =? 2) eqn:E2; [|reflexivity].
+  set (c := get_conn s chan). cbn [negb orb].
+  destruct (c_kind c =? K_WSP) eqn:Ek; cbn [andb].
+  2:{ cbn. reflexivity. }
+  destruct (bytes_eqb path (c_wspath c)) eqn:Ep; destruct (bytes_eqb u (c_user c)) eqn:Eu; cbn; try reflexivity.
+  apply bytes_eqb_eq in Ep.
+  pose proof (get_conn_ok s chan Hok) as Hc. fold c in Hc. apply Z.eqb_eq in Ek.
+  rewrite (Hc Ek), <- Ep. unfold spec_allows in Ea. rewrite Ea. rewrite orb_true_r. reflexivity.
+Qed.
+
+(* ------------------------------------------------------------------ *)
+(* G. every event of every reachable state is judged right              *)
+
+Theorem step_judged w s ev :
+  tok_inv s -> conns_ok s ->
+  judge w s ev (snd (step w s ev)) = true /\ judge_reg w s ev (snd (step w s ev)) = true.
+Proof.
+  intros H Hok. destruct ev; unfold step; cbn [step_gen]; try (split; reflexivity).
+  - apply judge_rtsp.
+  - split; [apply judge_wsopen; assumption|reflexivity].
+  - apply judge_wsrtsp.
+  - split; [apply judge_wsp|reflexivity].
+  - split; [apply judge_http; assumption|reflexivity].
+  - split; [apply judge_api; assumption|reflexivity].
+Qed.
+
+Lemma run_ok_from w s evs : tok_inv s -> conns_ok s -> ok_run w s evs (run w s evs) = true.
+Proof.
+  revert s. induction evs as [|e evs IH]; intros s H Hok; [reflexivity|].
+  unfold run in *. cbn [run_gen ok_run].
+  destruct (step_judged w s e H Hok) as [J1 J2]. unfold step in *.
+  destruct (step_gen true w s e) as [s1 o] eqn:Es. cbn [ok_run fst snd] in *.
+  rewrite J1, J2. cbn [andb].
+  apply IH.
+  - pose proof (step_tok_inv true w s e H) as H1. rewrite Es in H1. exact H1.
+  - pose proof (step_conns_ok true w s e Hok) as H1. rewrite Es in H1. exact H1.
+Qed.
+
+(* the oracle applied to the implementation accepts the model on every history *)
+Theorem model_passes w users0 ext evs :
+  ok_run w (state0 users0 ext) evs (run w (state0 users0 ext) evs) = true.
+Proof. apply run_ok_from; [apply tok_inv_init|apply conns_ok_init]. Qed.
+
+Lemma reachable_judged w s ev :
+  reachable w s ->
+  judge w s ev (snd (step w s ev)) = true /\ judge_reg w s ev (snd (step w s ev)) = true.
+Proof. intros H. apply step_judged; [eapply reachable_tok_inv|eapply reachable_conns_ok]; eauto. Qed.
+
+(* ---- the clauses of the property, read off the judgement ---- *)
+
+Definition act_eqb (a b : action) : bool :=
+  match a, b with
+  | APull, APull | APush, APush | AAdmin, AAdmin | AApiRead, AApiRead => true
+  | _, _ => false
+  end.
+
+Lemma allowed_inv s ev :
+  allowed s ev = true ->
+  exists u, identity s ev = Some u /\ spec_allows (users s) u (fst (target s ev)) (snd (target s ev)) = true.
+Proof.
+  unfold allowed. destruct (identity s ev) as [u|]; [|discriminate].
+  destruct (target s ev) as [act p]. intros H. exists u. auto.
+Qed.
+
+Lemma spec_allows_pull t u p :
+  spec_allows t u APull p = true -> exists r, rights_now t u = Some r /\ permits r PULL p = true.
+Proof. unfold spec_allows. destruct (rights_now t u) as [r|]; [|discriminate]. eauto. Qed.
+
+Lemma spec_allows_push t u p :
+  spec_allows t u APush p = true -> exists r, rights_now t u = Some r /\ permits r PUSH p = true.
+Proof. unfold spec_allows. destruct (rights_now t u) as [r|]; [|discriminate]. eauto. Qed.
+
+Lemma judge_parts w s ev o :
+  is_request ev = true -> judge w s ev o = true ->
+  (granted ev o = true -> allowed s ev = true \/ keepalive s ev = true) /\
+  (allowed s ev = true -> feasible w s ev = true -> accepted ev o = true) /\
+  (identity s ev = None -> unauth_code ev o = true) /\
+  judge_join s ev o = true.
+Proof.
+  intros Hr H. unfold judge in H. rewrite Hr in H.
+  apply andb_true_iff in H as [H H4]. apply andb_true_iff in H as [H H3].
+  apply andb_true_iff in H as [H1 H2].
+  repeat split; auto.
+  - intros Hg. rewrite Hg in H1. cbn in H1. apply orb_true_iff in H1. exact H1.
+  - intros Ha Hf. rewrite Ha, Hf in H2. exact H2.
+  - intros Hi. rewrite Hi in H3. exact H3.
+Qed.
+
+(* media of a path (or its description, or the upgrade that leads to it) goes only to a caller
+   authenticated as a user whose rights, as saved now, cover exactly that path for pulling *)
+Theorem media_requires_pull w s ev :
+  reachable w s ->
+  let o := snd (step w s ev) in
+  is_request ev = true -> fst (target s ev) = APull ->
+  granted ev o = true -> keepalive s ev = false ->
+  exists u r, identity s ev = Some u /\ rights_now (users s) u = Some r /\
+              permits r PULL (snd (target s ev)) = true.
+Proof.
+  intros Hr o Hq Ht Hg Hk. destruct (reachable_judged w s ev Hr) as [J _].
+  destruct (judge_parts _ _ _ _ Hq J) as (P1 & _). destruct (P1 Hg) as [Ha|Ha]; [|congruence].
+  apply allowed_inv in Ha as (u & Hi & Hs). rewrite Ht in Hs.
+  apply spec_allows_pull in Hs as (r & Hr1 & Hr2). eauto.
+Qed.
+
+(* the media a data channel receives is that of a control channel of the same verified user,
+   who holds the pull right on the stream it plays *)
+Theorem data_channel_requires_owner_and_pull w s path t chan :
+  reachable w s ->
+  let o := snd (step w s (EWsOpen 2 path t chan)) in
+  (o_media o = true \/ o_aux o = 200) ->
+  exists u r, token_identity s t = Some u /\ u = c_user (get_conn s chan) /\
+              rights_now (users s) u = Some r /\ permits r PULL (c_path (get_conn s chan)) = true.
+Proof.
+  intros Hr o Hm. destruct (reachable_judged w s (EWsOpen 2 path t chan) Hr) as [J _].
+  assert (Hq : is_request (EWsOpen 2 path t chan) = true) by reflexivity.
+  destruct (judge_parts _ _ _ _ Hq J) as (_ & _ & _ & Pj). fold o in Pj.
+  unfold judge_join in Pj. cbn [Z.eqb identity] in Pj.
+  assert (Hb : o_media o || (o_aux o =? 200) = true).
+  { destruct Hm as [Hm|Hm]; rewrite Hm; [reflexivity|apply orb_true_r]. }
+  destruct (token_identity s t) as [u|].
+  - rewrite Hb in Pj. cbn [implb] in Pj. apply andb_true_iff in Pj as [Pj _].
+    apply andb_true_iff in Pj as [Pj Ps]. apply andb_true_iff in Pj as [Pj _].
+    apply andb_true_iff in Pj as [_ Pu]. apply bytes_eqb_eq in Pu.
+    apply spec_allows_pull in Ps as (r & R1 & R2). exists u, r. auto.
+  - apply andb_true_iff in Pj as [P1 P2]. destruct Hm as [Hm|Hm]; rewrite Hm in *; discriminate.
+Qed.
+
+(* a stream is published or replaced only by a granted RECORD of a caller whose rights, as saved
+   now, cover the session's path for pushing *)
+Theorem publish_requires_push w s ev :
+  reachable w s ->
+  let o := snd (step w s ev) in
+  (match ev with ERtsp _ _ _ _ | EWsRtsp _ _ _ => True | _ => False end) ->
+  zlist_eqb (o_reg o) (reg_view w (reg s)) = false ->
+  exists u r, identity s ev = Some u /\ rights_now (users s) u = Some r /\
+              fst (target s ev) = APush /\ permits r PUSH (snd (target s ev)) = true.
+Proof.
+  intros Hr o He Hd. destruct (reachable_judged w s ev Hr) as [_ J]. fold o in J.
+  destruct ev; try contradiction; unfold judge_reg in J; rewrite Hd in J;
+    apply andb_true_iff in J as [J Ha]; apply andb_true_iff in J as [Jm _];
+    apply allowed_inv in Ha as (u & Hi & Hs); apply Z.eqb_eq in Jm; subst m.
+  - assert (Ht : fst (target s (ERtsp k M_RECORD path cr)) = APush).
+    { cbn [target]. unfold rtsp_target. unfold_m. cbn. reflexivity. }
+    rewrite Ht in Hs. apply spec_allows_push in Hs as (r & R1 & R2). exists u, r. auto.
+  - assert (Ht : fst (target s (EWsRtsp k M_RECORD path)) = APush).
+    { cbn [target]. unfold rtsp_target. unfold_m. cbn. reflexivity. }
+    rewrite Ht in Hs. apply spec_allows_push in Hs as (r & R1 & R2). exists u, r. auto.
+Qed.
+
+(* nothing but RTSP / ws-rtsp requests touches the registry *)
+Theorem registry_changes_only_by_sessions w s ev :
+  (match ev with ERtsp _ _ _ _ | EWsRtsp _ _ _ => False | _ => True end) ->
+  reg (fst (step w s ev)) = reg s.
+Proof.
+  intros He. destruct ev; try contradiction; unfold step; cbn [step_gen]; try reflexivity.
+  - unfold step_login. break_step; reflexivity.
+  - unfold step_refresh. destruct (is_none t); [reflexivity|].
+    assert (Hc : reg (fst (refresh s t)) = reg s) by (unfold refresh; break_step; reflexivity).
+    destruct (refresh s t). exact Hc.
+  - unfold step_wsopen. break_step; reflexivity.
+  - unfold step_wsp. break_step; reflexivity.
+  - rewrite step_http_auth. reflexivity.
+  - unfold step_api. break_step; reflexivity.
+Qed.
+
+(* management calls succeed only for administrators (stream queries: for any authenticated caller) *)
+Theorem api_requires_admin w s ep t u b n :
+  reachable w s ->
+  ep_open ep = false ->
+  o_code (snd (step w s (EApi ep t u b n))) = 2 ->
+  exists v, token_identity s t = Some v /\
+            (ep_read ep = false -> exists push pull, rights_now (users s) v = Some (true, push, pull)).
+Proof.
+  intros Hr Ho Hc. destruct (reachable_judged w s (EApi ep t u b n) Hr) as [J _].
+  assert (Hq : is_request (EApi ep t u b n) = true) by (cbn; rewrite Ho; reflexivity).
+  destruct (judge_parts _ _ _ _ Hq J) as (P1 & _).
+  assert (Hg : granted (EApi ep t u b n) (snd (step w s (EApi ep t u b n))) = true).
+  { cbn [granted]. rewrite Ho, Hc. reflexivity. }
+  destruct (P1 Hg) as [Ha|Ha]; [|discriminate].
+  apply allowed_inv in Ha as (v & Hi & Hs). exists v. split; [exact Hi|].
+  intros Hre. cbn [target fst snd] in Hs. rewrite Hre in Hs. unfold spec_allows in Hs.
+  destruct (rights_now (users s) v) as [[[a push] pull]|]; [|discriminate]. subst a. eauto.
+Qed.
+
+(* a request whose token is not a valid access token is refused with 401 on every token-guarded entry point;
+   an RTSP request without a valid digest is never served *)
+Theorem bad_tokens_refused w s ev :
+  reachable w s -> is_request ev = true -> identity s ev = None ->
+  unauth_code ev (snd (step w s ev)) = true /\ granted ev (snd (step w s ev)) = false \/
+  keepalive s ev = true.
+Proof.
+  intros Hr Hq Hi. destruct (reachable_judged w s ev Hr) as [J _].
+  destruct (judge_parts _ _ _ _ Hq J) as (P1 & _ & P3 & _).
+  destruct (granted ev (snd (step w s ev))) eqn:Hg.
+  - destruct (P1 eq_refl) as [Ha|Ha]; [|auto]. unfold allowed in Ha. rewrite Hi in Ha. discriminate.
+  - left. auto.
+Qed.
+
+(* which tokens have no identity: never issued, garbage, absent, a refresh token, an expired one, a superseded one *)
+Theorem token_classes_without_identity gs now :
+  spec_access gs now TNone = None /\
+  (forall b, spec_access gs now (TRaw b) = None) /\
+  (forall k, spec_access gs now (TR k) = None) /\
+  (forall k, (length gs <= k)%nat -> spec_access gs now (TA k) = None) /\
+  (forall k g, nth_error gs k = Some g -> g_t0 g + A_LIFE <= now -> spec_access gs now (TA k) = None) /\
+  (forall k g, nth_error gs k = Some g -> g_dead g = true -> spec_access gs now (TA k) = None).
+Proof.
+  repeat split; intros; simpl; auto.
+  - assert (E : nth_error gs k = None) by (apply nth_error_None; lia). rewrite E. reflexivity.
+  - rewrite H. destruct (g_dead g); [reflexivity|]. destruct (now <? g_t0 g + A_LIFE) eqn:E; [|reflexivity].
+    apply Z.ltb_lt in E. lia.
+  - rewrite H, H0. reflexivity.
+Qed.
+
+(* using a refresh token supersedes the access token issued with it, whatever the clock says afterwards *)
+Theorem refresh_supersedes s k g :
+  tok_inv s -> nth_error (grants s) k = Some g -> g_dead g = false ->
+  forall now', spec_access (grants (fst (refresh s (TR k)))) now' (TA k) = None.
+Proof.
+  intros H Hn Hd now'. unfold refresh. rewrite H. simpl. rewrite Hn, Hd. cbn [tr_k rec_of].
+  rewrite Nat.eqb_refl.
+  assert (Hk : forall gs', nth_error (kill (grants s) k ++ gs') k =
+                           Some {| g_user := g_user g; g_t0 := g_t0 g; g_dead := true |}).
+  { intros gs'. rewrite nth_error_app1.
+    - rewrite nth_error_kill, Nat.eqb_refl, Hn. reflexivity.
+    - rewrite kill_length. apply nth_error_Some. congruence. }
+  destruct (_ <? _); cbn [fst].
+  - unfold new_token. cbn [grants set_toks]. unfold spec_access. rewrite Hk. reflexivity.
+  - cbn [grants set_toks]. unfold spec_access. rewrite nth_error_kill, Nat.eqb_refl, Hn. reflexivity.
+Qed.
+
+(* the holder of the right is not refused: authenticated, allowed by the rights as saved now, request in order *)
+Theorem holder_not_refused w s ev :
+  reachable w s -> is_request ev = true ->
+  allowed s ev = true -> feasible w s ev = true ->
+  accepted ev (snd (step w s ev)) = true.
+Proof.
+  intros Hr Hq Ha Hf. destruct (reachable_judged w s ev Hr) as [J _].
+  destruct (judge_parts _ _ _ _ Hq J) as (_ & P2 & _). auto.
+Qed.
+
+(* ------------------------------------------------------------------ *)
+(* H. the rights are those last saved                                    *)
+
+Lemma lower_byte_idem b : lower_byte (lower_byte b) = lower_byte b.
+Proof.
+  unfold lower_byte. destruct ((65 <=? b) && (b <=? 90)) eqn:E; [|rewrite E; reflexivity].
+  apply andb_true_iff in E as [E1 E2]. apply Z.leb_le in E1. apply Z.leb_le in E2.
+  destruct ((65 <=? b + 32) && (b + 32 <=? 90)) eqn:E'; [|reflexivity].
+  apply andb_true_iff in E' as [_ E4]. apply Z.leb_le in E4. lia.
+Qed.
+
+Lemma to_lower_idem s : to_lower (to_lower s) = to_lower s.
+Proof. unfold to_lower. rewrite map_map. apply map_ext. apply lower_byte_idem. Qed.
+
+Lemma bytes_eqb_true_eq a b : bytes_eqb a b = true -> a = b.
+Proof. apply bytes_eqb_eq. Qed.
+
+Lemma find_map_save key nu upd n' t :
+  find (name_is n') (map (fun x => if name_is key x then copy_from x nu upd else x) t) =
+  if bytes_eqb key n' then option_map (fun old => copy_from old nu upd) (find (name_is key) t)
+  else find (name_is n') t.
+Proof.
+  induction t as [|x t IH]; simpl.
+  - destruct (bytes_eqb key n'); reflexivity.
+  - destruct (name_is key x) eqn:Ex.
+    + assert (Hk : u_name x = key) by (apply bytes_eqb_eq; exact Ex).
+      assert (Hn : name_is n' (copy_from x nu upd) = bytes_eqb key n') by (unfold name_is; cbn; congruence).
+      assert (Hn2 : name_is n' x = bytes_eqb key n') by (unfold name_is; congruence).
+      rewrite Hn, Hn2. destruct (bytes_eqb key n'); [reflexivity|]. exact IH.
+    + destruct (name_is n' x) eqn:Ex2.
+      * assert (Hk : u_name x = n') by (apply bytes_eqb_eq; exact Ex2).
+        assert (Hf : bytes_eqb key n' = false).
+        { rewrite bytes_eqb_sym. rewrite <- Hk. exact Ex. }
+        rewrite Hf. reflexivity.
+      * exact IH.
+Qed.
+
+Lemma existsb_find_none {A} (f : A -> bool) l : existsb f l = false -> find f l = None.
+Proof. induction l as [|x l IH]; simpl; [reflexivity|]. destruct (f x); [discriminate|]. exact IH. Qed.
+
+Lemma existsb_find_some {A} (f : A -> bool) l : existsb f l = true -> exists x, find f l = Some x.
+Proof. induction l as [|x l IH]; simpl; [discriminate|]. destruct (f x); eauto. Qed.
+
+Lemma find_app_one {A} (f : A -> bool) l x :
+  find f (l ++ [x]) = match find f l with Some y => Some y | None => if f x then Some x else None end.
+Proof. induction l as [|y l IH]; simpl; [reflexivity|]. destruct (f y); [reflexivity|exact IH]. Qed.
+
+(* what Get returns after Save: the saved record (password kept on request), everybody else untouched *)
+Theorem find_user_save t u upd n :
+  find_user (save_user t u upd) n =
+  if bytes_eqb (to_lower (u_name u)) (to_lower n)
+  then Some (match find_user t (u_name u) with
+             | Some old => copy_from old (norm_user u) upd
+             | None => norm_user u
+             end)
+  else find_user t n.
+Proof.
+  unfold find_user, save_user. cbn [norm_user u_name].
+  set (key := to_lower (u_name u)). set (n' := to_lower n).
+  destruct (existsb (name_is key) t) eqn:Ee.
+  - rewrite find_map_save. destruct (bytes_eqb key n'); [|reflexivity].
+    destruct (existsb_find_some _ _ Ee) as [x Hx]. rewrite Hx. reflexivity.
+  - rewrite find_app_one. rewrite (existsb_find_none _ _ Ee).
+    unfold name_is at 2. cbn [norm_user u_name]. fold key.
+    destruct (bytes_eqb key n') eqn:En.
+    + apply bytes_eqb_true_eq in En. rewrite <- En. rewrite (existsb_find_none _ _ Ee). reflexivity.
+    + destruct (find (name_is n') t); reflexivity.
+Qed.
+
+Theorem find_user_del t name n :
+  find_user (del_user t name) n =
+  if bytes_eqb (to_lower name) (to_lower n) then None else find_user t n.
+Proof.
+  unfold find_user, del_user. set (key := to_lower name). set (n' := to_lower n).
+  induction t as [|x t IH]; simpl.
+  - destruct (bytes_eqb key n'); reflexivity.
+  - destruct (name_is key x) eqn:Ex; cbn [negb].
+    + assert (Hk : u_name x = key) by (apply bytes_eqb_eq; exact Ex).
+      assert (Hn2 : name_is n' x = bytes_eqb key n') by (unfold name_is; congruence).
+      rewrite IH, Hn2. destruct (bytes_eqb key n'); reflexivity.
+    + simpl. destruct (name_is n' x) eqn:Ex2.
+      * assert (Hk : u_name x = n') by (apply bytes_eqb_eq; exact Ex2).
+        assert (Hf : bytes_eqb key n' = false).
+        { rewrite bytes_eqb_sym. rewrite <- Hk. exact Ex. }
+        rewrite Hf. reflexivity.
+      * exact IH.
+Qed.
+
+(* after a save the rights of that user are exactly the saved ones (an administrator's empty right being "*"),
+   whatever was saved before; after a delete there are none *)
+Lemma admin_default_idem a x : admin_default a (admin_default a x) = admin_default a x.
+Proof. unfold admin_default. destruct a; [|reflexivity]. destruct x; reflexivity. Qed.
+
+Theorem rights_now_after_save t u upd :
+  rights_now (save_user t u upd) (u_name u) =
+  Some (u_admin u, admin_default (u_admin u) (u_push u), admin_default (u_admin u) (u_pull u)).
+Proof.
+  unfold rights_now. rewrite find_user_save, bytes_eqb_refl.
+  destruct (find_user t (u_name u)); cbn; rewrite ?admin_default_idem; reflexivity.
+Qed.
+
+Theorem rights_now_after_del t name : rights_now (del_user t name) name = None.
+Proof. unfold rights_now. rewrite find_user_del, bytes_eqb_refl. reflexivity. Qed.
+
+Theorem rights_now_others_kept t u upd n :
+  bytes_eqb (to_lower (u_name u)) (to_lower n) = false ->
+  rights_now (save_user t u upd) n = rights_now t n.
+Proof. intros H. unfold rights_now. rewrite find_user_save, H. reflexivity. Qed.
+
+(* decisions see the table only through Get: two tables that return the same record for every name
+   (whatever histories of saves and deletes produced them) give the same answers and stay equivalent *)
+Definition same_table (t1 t2 : utable) : Prop := forall n, find_user t1 n = find_user t2 n.
+
+Lemma perm_go_same t1 t2 : same_table t1 t2 -> forall u r p, perm_go t1 u r p = perm_go t2 u r p.
+Proof. intros H u r p. unfold perm_go. rewrite H. reflexivity. Qed.
+
+Lemma rtsp_handle_ext ws pm1 pm2 r self c m path :
+  (forall a p, pm1 a p = pm2 a p) ->
+  rtsp_handle ws pm1 r self c m path = rtsp_handle ws pm2 r self c m path.
+Proof. intros H. unfold rtsp_handle. rewrite !H. reflexivity. Qed.
+
+Lemma wsp_handle_ext fx pm1 pm2 r c m :
+  (forall a p, pm1 a p = pm2 a p) -> wsp_handle fx pm1 r c m = wsp_handle fx pm2 r c m.
+Proof. intros H. unfold wsp_handle. rewrite !H. reflexivity. Qed.
+
+Lemma save_same t1 t2 u upd : same_table t1 t2 -> same_table (save_user t1 u upd) (save_user t2 u upd).
+Proof. intros H n. rewrite !find_user_save, !H. reflexivity. Qed.
+
+Lemma del_same t1 t2 name : same_table t1 t2 -> same_table (del_user t1 name) (del_user t2 name).
+Proof. intros H n. rewrite !find_user_del, !H. reflexivity. Qed.
+
+
+Definition with_users (s : state) (t : utable) : state := set_users s t.
+
+Ltac simp := cbn [fst snd users toks grants now conns reg ctr set_users set_now set_toks set_conns put_conn new_token
+                  o_code o_aux o_media o_id o_reg ob with_reg Z.eqb Pos.eqb negb].
+Theorem rights_are_current w s t2 ev :
+  same_table (users s) t2 ->
+  snd (step w (with_users s t2) ev) = snd (step w s ev) /\
+  same_table (users (fst (step w s ev))) (users (fst (step w (with_users s t2) ev))) /\
+  with_users (fst (step w s ev)) (users (fst (step w (with_users s t2) ev))) = fst (step w (with_users s t2) ev).
+Proof.
+  intros H. pose proof (perm_go_same _ _ H) as Hp.
+  destruct ev; unfold step, with_users; cbn [step_gen].
+  - simp. repeat split; auto using save_same.
+  - simp. repeat split; auto using del_same.
+  - simp. repeat split; auto.
+  - unfold step_login. cbn [users set_users]. rewrite <- H.
+    destruct name; [simp; auto|]. destruct pw; [simp; auto|].
+    destruct (find_user (users s) (z :: name)); [|simp; auto].
+    destruct (bytes_eqb _ _); simp; auto.
+  - unfold step_refresh. destruct (is_none t); [simp; auto|].
+    unfold refresh. cbn [toks set_users].
+    destruct (tm_load (toks s) t); [|simp; auto].
+    destruct (tokv_eqb _ _); [|simp; auto].
+    cbn [now set_users]. destruct (_ <? _); simp; auto.
+  - simp. auto.
+  - unfold step_rtsp. cbn [users set_users]. unfold get_conn. cbn [conns set_users].
+    destruct (negb _); [simp; auto|]. destruct (negb _); [simp; auto|].
+    assert (Hd : digest_check true t2 (nth k (conns s) dead_conn) cr =
+                 digest_check true (users s) (nth k (conns s) dead_conn) cr).
+    { unfold digest_check. destruct cr as [|du ds dn db]; [reflexivity|]. destruct du; [reflexivity|]. rewrite H. reflexivity. }
+    rewrite Hd. clear Hd. destruct (digest_check _ _ _ _) as [[uname|] rot]; [|simp; auto].
+    cbn [reg set_users]. rewrite (rtsp_handle_ext _ _ _ _ _ _ _ _ (fun a p => eq_sym (Hp uname a p))).
+    destruct (rtsp_handle _ _ _ _ _ _ _) as [[c2 code] pub]. simp. auto.
+  - unfold step_wsopen, stream_gate, auth_gate, access_check, get_conn. cbn [users toks now conns reg ctr set_users].
+    destruct (if is_none t then None else _) as [uname|]; [|simp; break_step; simp; auto].
+    rewrite <- Hp. destruct (perm_go _ _ _ _); cbn [negb Z.eqb Pos.eqb]; break_step; simp; auto.
+  - unfold step_wsrtsp. unfold get_conn. cbn [conns users reg set_users].
+    destruct (negb _); [simp; auto|]. destruct (negb _); [simp; auto|].
+    rewrite (rtsp_handle_ext _ _ _ _ _ _ _ _ (fun a p => eq_sym (Hp _ a p))).
+    destruct (rtsp_handle _ _ _ _ _ _ _) as [[c2 code] pub]. simp. auto.
+  - unfold step_wsp. unfold get_conn. cbn [conns users reg set_users].
+    destruct (negb _); [simp; auto|].
+    rewrite (wsp_handle_ext _ _ _ _ _ _ (fun a p => eq_sym (Hp _ a p))).
+    destruct (wsp_handle _ _ _ _ _) as [c2 code]. simp. auto.
+  - unfold step_http, stream_gate, auth_gate, access_check. cbn [users toks now reg set_users].
+    destruct (if is_none t then None else _) as [uname|]; [|simp; auto].
+    rewrite <- Hp. destruct (perm_go _ _ _ _); cbn; break_step; simp; auto.
+  - unfold step_api, api_gate, auth_gate, access_check. cbn [users toks now set_users].
+    destruct (ep_open ep); [simp|].
+    + destruct (ep =? EP_SAVE_USER); [simp; auto using save_same|].
+      destruct (ep =? EP_DEL_USER); simp; auto using del_same.
+    + destruct (if is_none t then None else _) as [uname|]; [|simp; auto].
+      destruct (ep_read ep).
+      * simp. destruct (ep =? EP_SAVE_USER); [simp; auto using save_same|].
+        destruct (ep =? EP_DEL_USER); simp; auto using del_same.
+      * rewrite <- H. destruct (find_user (users s) uname) as [x|]; [|simp; auto].
+        destruct (u_admin x); [|simp; auto].
+        simp. destruct (ep =? EP_SAVE_USER); [simp; auto using save_same|].
+        destruct (ep =? EP_DEL_USER); simp; auto using del_same.
+Qed.
+
+(* ------------------------------------------------------------------ *)
+(* I. tokens and what other clients are shown                            *)
+
+(* what any client other than the holder is shown (status codes, media, session / channel ids — the
+   ids drawn from the process-wide counter) is the same whatever the entropy oracle returns: the
+   oracle's output reaches nobody but the caller of a successful login / refresh.  Hence no function
+   of what the server discloses to other or unauthenticated clients computes a token. *)
+Theorem token_not_computable rnd1 rnd2 w s evs :
+  others_view (run_out rnd1 w s evs) = others_view (run_out rnd2 w s evs).
+Proof.
+  revert s. induction evs as [|e evs IH]; intros s; [reflexivity|].
+  cbn [run_out]. destruct (step w s e) as [s1 o]. unfold others_view in *. cbn [map fst].
+  f_equal. apply IH.
+Qed.
+
+Theorem others_view_is_run rnd w s evs : others_view (run_out rnd w s evs) = run w s evs.
+Proof.
+  revert s. induction evs as [|e evs IH]; intros s; [reflexivity|].
+  unfold run in *. cbn [run_out run_gen]. unfold step. destruct (step_gen true w s e) as [s1 o].
+  unfold others_view in *. cbn [map fst]. f_equal. apply IH.
+Qed.
+
+(* before the repair: both tokens were a public function of the counter whose values the session ids are.
+   Whoever saw an id and knows (or tries) how many ids were drawn since computes the tokens of the next login. *)
+Theorem token_predictable_refuted :
+  forall (h : Z -> bytes) (disclosed_id ids_between : Z),
+    predict h disclosed_id ids_between = tokens_orig h (disclosed_id + ids_between).
+Proof. intros. unfold predict, tokens_orig. reflexivity. Qed.
+
+(* ---- the behaviour before the repairs fails the oracle: one history per defect ---- *)
+From Coq Require Import String Ascii.
+Definition bs (s : string) : bytes := map (fun a => Z.of_nat (nat_of_ascii a)) (list_ascii_of_string s).
+
+Definition w0 : list bytes := [bs "/a/b"; bs "/a/c"; bs "/x"; bs "/p/q"].
+Definition mk (n pw : string) (admin : bool) (push pull : string) : user :=
+  {| u_name := bs n; u_pw := bs pw; u_admin := admin; u_push := bs push; u_pull := bs pull |}.
+Definition users0 : list user :=
+  [mk "bob" "pb" false "" "/a/*"; mk "ann" "pa" false "/p/*" "/x"; mk "eve" "pe" false "" "/a/b"].
+Definition s0 : state := state0 users0 [bs "/a/b"; bs "/x"].
+Definition refutes (evs : list event) : bool := negb (ok_run w0 s0 evs (run_gen false w0 s0 evs)).
+
+(* D20: the matchers of the previous rights were kept: right narrowed from /a/* to /c, /a/b still granted *)
+Theorem narrowed_rights_still_grant_refuted :
+  exists a1 a2 p,
+    spec_permit false a2 p = false /\
+    validate_matchers (matchers_after_saves [a1; a2]) p = true.
+Proof. exists (bs "/a/*"), (bs "/c"), (bs "/a/b"). vm_compute. auto. Qed.
+
+(* D21: ann (push /p/*, pull /x) opens ws-rtsp on /x and publishes /a/c *)
+Theorem ws_publish_without_push_refuted :
+  refutes [ELogin (bs "ann") (bs "pa"); EWsOpen 0 (bs "/x") (TA 0) 0;
+           EWsRtsp 0 M_ANNOUNCE (bs "/a/c"); EWsRtsp 0 M_SETUP_RECORD (bs "/a/c"); EWsRtsp 0 M_RECORD (bs "/a/c")] = true.
+Proof. vm_compute. reflexivity. Qed.
+
+(* D22: bob plays /a/b over WSP; ann (pull /x) joins his channel from /x and receives his media *)
+Theorem wsp_datachannel_hijack_refuted :
+  refutes [ELogin (bs "bob") (bs "pb"); ELogin (bs "ann") (bs "pa");
+           EWsOpen 1 (bs "/a/b") (TA 0) 0; EWsOpen 2 (bs "/a/b") (TA 0) 0;
+           EWsp 0 M_DESCRIBE (bs "/a/b"); EWsp 0 M_SETUP_PLAY (bs "/a/b"); EWsp 0 M_PLAY (bs "/a/b");
+           EWsOpen 2 (bs "/x") (TA 1) 0] = true.
+Proof. vm_compute. reflexivity. Qed.
+
+(* WSP: rights withdrawn after the upgrade, PLAY still served *)
+Theorem wsp_rights_not_current_refuted :
+  refutes [ELogin (bs "bob") (bs "pb"); EWsOpen 1 (bs "/a/b") (TA 0) 0;
+           EWsp 0 M_DESCRIBE (bs "/a/b"); EWsp 0 M_SETUP_PLAY (bs "/a/b");
+           ESave (mk "bob" "pb" false "" "/x") false; EWsp 0 M_PLAY (bs "/a/b")] = true.
+Proof. vm_compute. reflexivity. Qed.
+
+(* D23: eve holds exactly /a/b and is refused its segment 1 *)
+Theorem hls_segment_path_refuted :
+  refutes [ELogin (bs "eve") (bs "pe"); EHttp 2 (bs "/a/b") (TA 0) 1] = true.
+Proof. vm_compute. reflexivity. Qed.
+
+(* digest: after one wrong response the right one, computed from the challenge just received, is refused *)
+Theorem stale_challenge_refuted :
+  refutes [ERtspOpen; ERtsp 0 M_DESCRIBE (bs "/a/b") (CDigest (bs "bob") (bs "bad") 0 0);
+           ERtsp 0 M_DESCRIBE (bs "/a/b") (CDigest (bs "bob") (bs "pb") 0 0)] = true.
+Proof. vm_compute. reflexivity. Qed.
+
+(* and the repaired model passes on the very same histories (instances of model_passes, by computation) *)
+Example repaired_passes_on_witnesses :
+  ok_run w0 s0 [ELogin (bs "eve") (bs "pe"); EHttp 2 (bs "/a/b") (TA 0) 1]
+         (run w0 s0 [ELogin (bs "eve") (bs "pe"); EHttp 2 (bs "/a/b") (TA 0) 1]) = true.
+Proof. vm_compute. reflexivity. Qed.
+
+(* the history of the non-vacuity example in Properties/C11.v *)
+Definition nv_login : event := ELogin (bs "bob") (bs "pb").
+Definition nv_get (t : tokv) : event := EHttp 0 (bs "/a/b") t 0.
+Definition nv_evs : list event :=
+  [nv_login; nv_get (TA 0); nv_get (TR 0); ESave (mk "bob" "pb" false "" "/c") false; nv_get (TA 0)].
